@@ -38,13 +38,14 @@ PIPELINES = [
 #   "stranded": the freshly filled vertex array contains no unreferenced vertex and the triangle list no opposed
 #               pair (so CreateHalfedges strands nothing).  Revolve is deliberately absent: the oracle refuted it.
 #   "dup":      the generated triangles contain no directed edge twice and no pinched vertex (nothing in these
-#               pipelines would repair it: they do not call CleanupTopology).
+#               pipelines would repair it: they do not call CleanupTopology).  Revolve is deliberately absent: a
+#               contour touching the axis in one vertex makes that vertex the apex of two cones (oracle finding),
+#               so Revolve has to call CleanupTopology itself.
 WAIVERS = {
     "ShapeCtor": ("fixed vertex/triangle tables of tetrahedron, cube, octahedron", ["stranded", "dup"]),
     "Sphere": ("Subdivide of the octahedron without tangents: every created vertex is used, no opposed pairs", ["stranded"]),
     "Extrude": ("every generated vertex is used by a side or cap triangle when Triangulate covers all polygon vertices; "
                 "side walls and caps of distinct contours do not share directed edges", ["stranded", "dup"]),
-    "Revolve": ("slices of distinct contour vertices do not share directed edges (axis vertices are reused per contour only)", ["dup"]),
     "Hull": ("QuickHull::buildMesh returns only hull vertices, already reindexed, as a convex 2-manifold", ["stranded", "dup"]),
 }
 
